@@ -68,7 +68,7 @@ Section LoopProofs.
     destruct (make st1 (pview_of (mk_view hw disk ov)) T) as [d1 s1 st1'|st1'|];
       destruct (make st2 (pview_of (mk_view hw disk ov)) T) as [d2 s2 st2'|st2'|]; cbn in H; try contradiction; auto.
     destruct H as [-> [-> Hr]]. rewrite Hr.
-    destruct (separate c); apply IH.
+    destruct (separate c); [destruct (ahas _ sm); [reflexivity|]|]; apply IH.
   Qed.
 
   (* the loop written without any generator state: every type is analysed by a generator in state [st0] *)
@@ -85,7 +85,8 @@ Section LoopProofs.
             let src := render st' d in
             let fname := file_name c (all_in_one_file c v) fmap T in
             let ov' := if stale && match rest with [] => false | _ => true end then upsert fname src ov else ov in
-            if separate c then pure_loop st0 rest fmap ov' (upsert fname src sm) sl
+            if separate c then
+              if ahas fname sm then None else pure_loop st0 rest fmap ov' (upsert fname src sm) sl
             else pure_loop st0 rest fmap ov' sm (sl ++ [src])
         end
     end.
@@ -98,7 +99,7 @@ Section LoopProofs.
     destruct (make st (pview_of (mk_view hw disk ov)) T) as [d1 s1 st1'|st1'|];
       destruct (make st0 (pview_of (mk_view hw disk ov)) T) as [d2 s2 st2'|st2'|]; cbn in H; try contradiction; auto.
     destruct H as [-> [-> Hr]]. rewrite Hr.
-    destruct (separate c); apply IH.
+    destruct (separate c); [destruct (ahas _ sm); [reflexivity|]|]; apply IH.
   Qed.
 
   (* Generate does not depend on the state the generator object starts in *)
@@ -239,8 +240,49 @@ Definition hand_of (hw : list hfile) := hand_decls (mk_view hw [] []).
 Lemma enum_blind : forall c, blind (enum_make c).
 Proof. intros c H0 st v v' T H H'. unfold enum_make, enum_values. rewrite H, H'. reflexivity. Qed.
 
+Lemma find_struct_hand : forall v v' T, pv_hand v = pv_hand v' -> find_struct v T = find_struct v' T.
+Proof. intros v v' T H. unfold find_struct. rewrite H. reflexivity. Qed.
+
+Lemma rest_param_hand : forall v v' h vb pp p acc, pv_hand v = pv_hand v' ->
+  rest_param v h vb pp p acc = rest_param v' h vb pp p acc.
+Proof.
+  intros v v' h vb pp p acc H. unfold rest_param.
+  destruct acc as [[[[[q ptr] al] body] dict] ctx]. destruct (rp_kind p); try reflexivity.
+  rewrite (find_struct_hand v v' tname H). reflexivity.
+Qed.
+
+Lemma fold_left_ext : forall {A B} (f g : A -> B -> A) l a, (forall a x, f a x = g a x) -> fold_left f l a = fold_left g l a.
+Proof. induction l as [|x l IH]; intros a H; cbn; auto. rewrite H. apply IH. exact H. Qed.
+
+Lemma rest_method_hand : forall o v v' h m, pv_hand v = pv_hand v' -> rest_method o v h m = rest_method o v' h m.
+Proof.
+  intros o v v' h m H. unfold rest_method.
+  match goal with |- context [fold_left ?f (rm_params m) ?a] =>
+    match goal with |- context [fold_left ?g (rm_params m) a] =>
+      tryif constr_eq f g then fail else (assert (E : fold_left f (rm_params m) a = fold_left g (rm_params m) a))
+    end
+  end.
+  { apply fold_left_ext. intros a p. destruct a as [acc|]; auto. apply rest_param_hand. exact H. }
+  rewrite E. reflexivity.
+Qed.
+
 Lemma rest_blind : forall o c, blind (rest_make o c).
-Proof. intros o c H0 st v v' T H H'. unfold rest_make, find_iface_decl. rewrite H, H'. reflexivity. Qed.
+Proof.
+  intros o c H0 st v v' T H H'. unfold rest_make, find_iface_decl. rewrite H, H'.
+  match goal with |- match ?x with _ => _ end = _ => destruct x as [[[fn h] r]|] end; auto.
+  assert (E : forall acc,
+    fold_left (fun a m => match a with
+                          | None => None
+                          | Some ms => if rm_hasdoc m then match rest_method o v h m with Some x => Some (ms ++ [x])%list | None => None end else Some ms
+                          end) (ri_methods r) acc =
+    fold_left (fun a m => match a with
+                          | None => None
+                          | Some ms => if rm_hasdoc m then match rest_method o v' h m with Some x => Some (ms ++ [x])%list | None => None end else Some ms
+                          end) (ri_methods r) acc).
+  { intros acc. apply fold_left_ext. intros a m. destruct a; auto.
+    rewrite (rest_method_hand o v v' h m) by congruence. reflexivity. }
+  rewrite E. reflexivity.
+Qed.
 
 Section Blind.
   Context {St Data : Type}.
@@ -268,6 +310,13 @@ Section Blind.
         end
     end.
 
+  (* the source map of a separate-files run: a second type mapping to an already used file name is fatal *)
+  Fixpoint fold_strict (l : gfiles) (sm : gfiles) : option gfiles :=
+    match l with
+    | [] => Some sm
+    | e :: r => if ahas (fst e) sm then None else fold_strict r (upsert (fst e) (snd e) sm)
+    end.
+
   Definition drop_ov (r : option (gfiles * list afile * gfiles)) : option (gfiles * list afile) :=
     match r with Some (a, _) => Some a | None => None end.
 
@@ -278,7 +327,8 @@ Section Blind.
     drop_ov (pure_loop make render c hw disk st0 types fmap ov sm sl) =
     match sources fmap types with
     | None => None
-    | Some l => Some (if separate c then (fold_left ups l sm, sl) else (sm, (sl ++ map snd l)%list))
+    | Some l => if separate c then match fold_strict l sm with Some sm' => Some (sm', sl) | None => None end
+                else Some (sm, (sl ++ map snd l)%list)
     end.
   Proof.
     induction types as [|T r IH]; intros fmap ov sm sl.
@@ -290,7 +340,9 @@ Section Blind.
       destruct (alone T) as [d s st'|st'|]; auto.
       fold (out_name fmap T).
       destruct (separate c) eqn:Es.
-      + rewrite IH. destruct (sources fmap r); auto.
+      + destruct (ahas (out_name fmap T) sm) eqn:Ea.
+        * destruct (sources fmap r); auto. cbn [fold_strict fst]. rewrite Ea. reflexivity.
+        * rewrite IH. destruct (sources fmap r); auto. cbn [fold_strict fst snd]. rewrite Ea. reflexivity.
       + rewrite IH. destruct (sources fmap r); auto. cbn. rewrite <- app_assoc. reflexivity.
   Qed.
 End Blind.
@@ -319,7 +371,7 @@ Section BlindRun.
         match sources make render hw c st0 fmap types with
         | None => None
         | Some l =>
-            if separate c then Some (fold_left ups l [])
+            if separate c then fold_strict l []
             else match merge (map snd l) with
                  | None => Some []
                  | Some m => Some [(out_name hw c fmap "", m)]
@@ -334,11 +386,12 @@ Section BlindRun.
     destruct (gen_loop make render c hw disk types fmap st [] [] []) as [[[[sm sl] ov] s]|]; cbn in Hp.
     - rewrite <- Hp in Hb. cbn in Hb.
       destruct (sources make render hw c st0 fmap types) as [l|]; [|discriminate].
-      destruct (separate c); injection Hb as -> ->.
-      + cbn. reflexivity.
-      + cbn [app]. destruct (merge (map snd l)); auto.
+      destruct (separate c).
+      + destruct (fold_strict l []) as [sm'|]; [|discriminate]. injection Hb as -> ->. cbn. reflexivity.
+      + injection Hb as -> ->. cbn [app]. destruct (merge (map snd l)); auto.
         rewrite all_in_one_file_mk_view. reflexivity.
-    - rewrite <- Hp in Hb. cbn in Hb. destruct (sources make render hw c st0 fmap types); [discriminate|auto].
+    - rewrite <- Hp in Hb. cbn in Hb. destruct (sources make render hw c st0 fmap types) as [l|]; auto.
+      destruct (separate c); [|discriminate]. destruct (fold_strict l []); [discriminate | reflexivity].
   Qed.
 
 End BlindRun.
@@ -429,7 +482,7 @@ Section LoopRel.
     destruct (make1 st1 (pview_of (mk_view hw disk ov)) T) as [d1 s1 st1'|st1'|];
       destruct (make2 st2 (pview_of (mk_view hw disk ov)) T) as [d2 s2 st2'|st2'|]; cbn in H; try contradiction; auto.
     destruct H as [-> Hr]. rewrite Hr.
-    destruct (separate c); apply IH.
+    destruct (separate c); [destruct (ahas _ sm); [reflexivity|]|]; apply IH.
   Qed.
 
   Lemma generate_rel : forall lt o st1 st2,
